@@ -1062,6 +1062,19 @@ func (s *Session) step(fr *Frame, in ssa.Instruction, st *State) {
 		addr := s.valueOf(fr, x.Addr)
 		val := s.valueOf(fr, x.Val)
 		s.store(st, s.toLoc(addr), s.materializeFor(val))
+		// a function value kept in a local cell (a captured `f func(..)` parameter) survives the trip through the heap
+		if al, ok := x.Addr.(*ssa.Alloc); ok && al.Heap {
+			if l := s.toLoc(addr); l.Kind == "P" && l.Path == "" && len(l.Idx) == 0 {
+				if s.fnCells == nil {
+					s.fnCells = map[string]Val{}
+				}
+				if val.Clo != nil || val.Fn != nil {
+					s.fnCells[l.Ref.S] = val
+				} else {
+					delete(s.fnCells, l.Ref.S)
+				}
+			}
+		}
 		// elements of compiler-generated literal arrays (variadic arguments, slice literals) are remembered
 		// symbolically so that function values and other non-scalar elements survive the trip through the heap
 		if ia, ok := x.Addr.(*ssa.IndexAddr); ok {
@@ -1199,6 +1212,14 @@ func (s *Session) unop(fr *Frame, x *ssa.UnOp, st *State) {
 		if loc.Kind == "A" && len(loc.Idx) == 1 && isNumeral(loc.Idx[0].S) {
 			if cells, ok := s.litSlices[loc.Ref.S]; ok {
 				if cv, ok2 := cells[atoi(loc.Idx[0].S)]; ok2 && (cv.Clo != nil || cv.Fn != nil) {
+					fr.vals[x] = cv
+					return
+				}
+			}
+		}
+		if loc.Kind == "P" && loc.Path == "" && len(loc.Idx) == 0 {
+			if _, isSig := x.Type().Underlying().(*types.Signature); isSig {
+				if cv, ok := s.fnCells[loc.Ref.S]; ok {
 					fr.vals[x] = cv
 					return
 				}
